@@ -327,6 +327,41 @@ def visitHandlers (σ : List Scope) (rep : Nat) : List Stmt → B → Acc → B 
     visitHandlers σ rep hs r.1 r.2
 end
 
+/-- The `ast` class whose `visit_<name>` method of `AstToCfg` the model mirrors for this statement (`""` where the real
+class has no such method and `NodeVisitor.generic_visit` runs: the async variants, and syntax outside the modelled
+language).  The match is exhaustive over the constructors of `Stmt`. -/
+def stmtKindName : Stmt → String
+  | .functionDef _ _ _ _ _ _ isAsync => if isAsync then "" else "FunctionDef"
+  | .classDef .. => "ClassDef"
+  | .ret .. => "Return"
+  | .delete .. => "Delete"
+  | .assign .. => "Assign"
+  | .augAssign .. => "AugAssign"
+  | .annAssign .. => "AnnAssign"
+  | .for_ _ _ _ _ _ _ isAsync => if isAsync then "" else "For"
+  | .while_ .. => "While"
+  | .if_ .. => "If"
+  | .with_ _ _ _ isAsync => if isAsync then "" else "With"
+  | .raise .. => "Raise"
+  | .try_ .. => "Try"
+  | .handler .. => "ExceptHandler"
+  | .assert_ .. => "Assert"
+  | .import_ .. => "Import"
+  | .importFrom .. => "ImportFrom"
+  | .global .. => "Global"
+  | .nonlocal .. => "Nonlocal"
+  | .expr .. => "Expr"
+  | .pass .. => "Pass"
+  | .break_ .. => "Break"
+  | .continue_ .. => "Continue"
+  | .other .. => ""
+
+/-- The `visit_*` methods of the real `AstToCfg` that `visitStmt` / `lamGraphs` mirror (compared with the real class on
+every run: a visitor that disappears or appears breaks the obligation `C05_visitors_cover_statements`). -/
+def modelVisitors : List String :=
+  ["FunctionDef", "ClassDef", "Return", "Delete", "Assign", "AugAssign", "AnnAssign", "For", "While", "If", "With", "Raise",
+   "Try", "ExceptHandler", "Assert", "Import", "ImportFrom", "Global", "Nonlocal", "Expr", "Pass", "Break", "Continue", "Lambda"]
+
 /-- Result of `cfg.build(fn)`: all graphs keyed by function/lambda id, or the Python exception. -/
 structure Result where
   cfgs : List (Nat × Graph)
